@@ -45,3 +45,41 @@ pub fn ks_distance(xs: &mut [f64], cdf: impl Fn(f64) -> f64, cdf_left: impl Fn(f
 pub fn chi2_stat(obs: &[f64], exp: &[f64]) -> f64 {
     obs.iter().zip(exp).map(|(o, e)| (o - e) * (o - e) / e).sum()
 }
+
+/// Rounding-aware variant for continuous laws sampled in f64. A draw equal to the representable
+/// number x stands for a variate somewhere within one ulp of x, so the CDF G of the *rounded*
+/// variate satisfies F(x⁻ulp) ≤ G(x−) ≤ G(x) ≤ F(x⁺ulp). Both the empirical left limit and the
+/// empirical value at x are therefore compared with the interval [F(next_down x), F(next_up x)]
+/// (distance 0 inside it). This is a lower bound of sup|F_n − G| — it can only be smaller than
+/// the plain statistic, never raise an alarm of its own — and differs from it only where F has
+/// visible mass inside one ulp (e.g. Beta(3, 0.1) puts 2.9 % of its mass within 1 ulp of 1.0).
+pub fn ks_distance_rounded(xs: &mut [f64], cdf: impl Fn(f64) -> f64) -> (f64, f64) {
+    xs.sort_by(|a, b| a.partial_cmp(b).unwrap_or(std::cmp::Ordering::Equal));
+    let n = xs.len() as f64;
+    let mut d = 0.0f64;
+    let mut at = f64::NAN;
+    let mut i = 0;
+    while i < xs.len() {
+        let x = xs[i];
+        let mut j = i;
+        while j + 1 < xs.len() && xs[j + 1] == x {
+            j += 1;
+        }
+        if x.is_nan() {
+            return (f64::INFINITY, x);
+        }
+        let lo = cdf(x.next_down());
+        let hi = cdf(x.next_up());
+        if lo.is_nan() || hi.is_nan() {
+            return (f64::INFINITY, x);
+        }
+        let dist = |v: f64| (lo - v).max(v - hi).max(0.0);
+        let dd = dist((j + 1) as f64 / n).max(dist(i as f64 / n));
+        if dd > d {
+            d = dd;
+            at = x;
+        }
+        i = j + 1;
+    }
+    (d, at)
+}
